@@ -30,6 +30,7 @@ RULE = (
     'the parse result must not share a default cache file.  Non-trivial = a fault that made the loader fall back; '
     'distinct = (loader, fault kind, prefix length / garbage bytes).'
 )
+RULE += ' Added in rounds 7-10: digit-shift and checksum-collision argument variants; foreign cache-like files (<stem>.cache of another load, stale .tmp) next to the sources.'
 ASSUMPTIONS = [
     'synthetic loader inputs exercise the loaders\' control flow, not the variety of real simulation output',
     'garbage that happens to be a loadable pickle of some other object is outside the statement ("unreadable") and is skipped and counted',
